@@ -442,6 +442,7 @@ func (a *App) setup() error {
 	if peer != nil {
 		waitFunc = clusterWait(peer, opts.PeerTimeout)
 	}
+	waitFunc = verifWaitFunc(opts, waitFunc)
 	timeoutFunc := func(d time.Duration) time.Duration {
 		if d < notify.MinTimeout {
 			d = notify.MinTimeout
@@ -491,6 +492,7 @@ func (a *App) setup() error {
 		waitFunc:                    waitFunc,
 	}
 	a.onStop("dispatcher+inhibitor", r.stop)
+	verifRegister(a, silences, silencer, notificationLog, alerts, r)
 
 	configCoordinator.Subscribe(r.reload)
 
